@@ -195,6 +195,15 @@ def check(spec) -> dict:
         tw = run(min(budget, 60.0), True)
         out["twin"] = {k: tw.get(k) for k in ("verdict", "paths", "wall_s", "reached")}
         out["twin_ok"] = tw["verdict"] == "REFUTED" and tw.get("cex_kind") == "POST_FAIL"
+        if not out["twin_ok"] and tw["verdict"] == "PRE_UNSAT" and rt.MODE["exclude"]:
+            # is the whole partition inside the regions of known findings?
+            saved = rt.MODE["exclude"]
+            rt.MODE["exclude"] = []
+            tw2 = run(min(budget, 60.0), True)
+            rt.MODE["exclude"] = saved
+            if tw2["verdict"] == "REFUTED" and tw2.get("cex_kind") == "POST_FAIL":
+                out.update({"verdict": "KNOWN_REGION", "paths": tw.get("paths", 0), "z3_checks": 0, "z3_s": 0.0, "wall_s": tw.get("wall_s", 0), "twin_ok": True})
+                return out
         if not out["twin_ok"]:
             out["twin"]["messages"] = tw.get("messages")
             out.update({"verdict": "VACUOUS", "paths": 0, "z3_checks": 0, "z3_s": 0.0, "wall_s": tw.get("wall_s", 0)})
